@@ -1,6 +1,7 @@
 CONSTANTS
-  Workers <- MCNoWorkers
-  NTs <- MCNTs
+  Workers <- Workers_newthread
+  NTs <- NTs_newthread
+  ThreadNames <- Threads_newthread
   WyFix = FALSE
   AllowSpurious = FALSE
 INIT Init_newthread
